@@ -210,6 +210,7 @@ type walker struct {
 	root   *gen.Tree
 	varexp bool
 	evals  []eval
+	d48    bool // class of finding D48 seen: a field of a primitive type with InitDefaults that the configuration does not mention
 }
 
 var refRe = regexp.MustCompile(`^\$\{(r[0-9]+)\}$`)
@@ -328,6 +329,9 @@ func (w *walker) walk(td *gen.TD, v reflect.Value, p pos) {
 				q.inInline = true
 			} else {
 				q = w.at(p, f.ConfigName(), cfgField(p.cfg, f.ConfigName()))
+			}
+			if fi, ok := cats[f.T.Kind]; ok && fi.initDefaults && f.T.Shape().IsLeaf() && q.cfg == nil {
+				w.d48 = true
 			}
 			for _, t := range parseTags(f.Validate) {
 				tq := q
